@@ -1,4 +1,5 @@
 import ConduitModel.Proofs.Errs
+import ConduitModel.Model.AckErr
 
 /-!
 # C20 — error classification is stable under wrapping: property theorems
@@ -328,6 +329,105 @@ theorem C20_errorf_two_w_loses_everything (c : Code) (x y : Err) :
   have h : errorfIdx fmtWhileHandling 2 = none := by decide
   refine ⟨?_, ?_, by decide⟩ <;>
   simp [errorf, errorfWraps, h, getErr, isFatalErr, first, codeNode, fatalNode]
+
+/-! ## propagation sites, and the v1 ack / nack route up to the classifier -/
+
+/-- C20.prop_site_keeps_errors — at a `cerrors.Errorf` propagation site that satisfies
+`propSiteOk` (what `Facts/C20Prop` decides for every site of the lifecycle packages), every
+error-valued argument is reachable in the result: none of them is flattened into text. -/
+theorem C20_prop_site_keeps_errors (fmt : List Nat) (a : List Val) (errArgs : List Nat)
+    (h : propSiteOk 0 fmt a.length errArgs = true) :
+    ∀ i ∈ errArgs, ∀ e, errorAt a i = some e → e ∈ reach (errorf fmt a) := by
+  intro i hi e he
+  simp only [propSiteOk, if_true, Bool.and_eq_true, List.all_eq_true, List.contains_iff_mem] at h
+  exact C20_errorf_good_site_keeps_all fmt a (by simpa [goodSite] using h.1) i (h.2 i hi) e he
+
+/-- the wrappers of both routes keep their argument first (`errorfIdx` honours the `%w`). -/
+theorem C20_route_layers_keep :
+    (∀ l ∈ nackRouteLayers, l.KeepsFirst ∧ l.Keeps) ∧ (∀ l ∈ ackRouteLayers, l.KeepsFirst ∧ l.Keeps) := by
+  have h1 : errorfIdx fmtNodeStopped (1 + 1 + 0) = some 1 := by decide
+  have h2 : errorfIdx fmtNacking (0 + 1 + 0) = some 0 := by decide
+  have h3 : errorfIdx fmtAcking (0 + 1 + 0) = some 0 := by decide
+  constructor <;> intro l hl <;>
+    simp only [nackRouteLayers, ackRouteLayers, List.mem_cons, List.mem_nil_iff, or_false] at hl <;>
+    rcases hl with rfl | rfl | rfl | rfl <;>
+    simp [Layer.KeepsFirst, Layer.Keeps, h1, h2, h3]
+
+/-- C20.v1_nack_node_error_is_layered — the error a destination acker node stops with after a
+failed nack IS the nack handler's error under `Join(·, nil)` and the `%w` wrapper of `handleAck`
+(the model function and the layer list agree), and symmetrically for a failed ack. -/
+theorem C20_v1_node_error_is_layered (w : Dlq.Win) (thr : Nat) (m : AckErr.Msg) :
+    (∀ reason, m.nack = some reason →
+      (AckErr.handleAck w thr m).2 =
+        (AckErr.nackHandler w thr reason m).2.map (applyAll (nackRouteLayers.drop 1))) ∧
+    (m.nack = none →
+      (AckErr.handleAck w thr m).2 = (AckErr.ackHandler w m).2.map (applyAll (ackRouteLayers.drop 1))) := by
+  have h2 : errorfIdx fmtNacking (([] : List Val).length + 1 + ([] : List Val).length) = some ([] : List Val).length := by decide
+  have h3 : errorfIdx fmtAcking (([] : List Val).length + 1 + ([] : List Val).length) = some ([] : List Val).length := by decide
+  constructor
+  · intro reason hr
+    simp only [AckErr.handleAck, hr, AckErr.msgNack]
+    cases hq : (AckErr.nackHandler w thr reason m).2 with
+    | none => simp [join]
+    | some e =>
+      have := errorf_of_idx (e := Err.join [e]) h2
+      simp only [List.nil_append] at this
+      simp [join, nackRouteLayers, applyAll, Layer.app, this, AckErr.wrapW]
+  · intro hr
+    simp only [AckErr.handleAck, hr, AckErr.msgAck]
+    cases hq : (AckErr.ackHandler w m).2 with
+    | none => simp [join]
+    | some e =>
+      have := errorf_of_idx (e := Err.join [Err.join [e]]) h3
+      simp only [List.nil_append] at this
+      simp [join, ackRouteLayers, applyAll, Layer.app, this, AckErr.wrapW]
+
+/-- C20.v1_route_marks_survive — "the recovery decision of a pipeline … does not depend on the
+path an error took", for the v1 ack / nack route: whatever error `e` the handler chain
+(SourceAckerNode → DLQHandlerNode / Source.Ack) returns, what `lifecycle.Service` classifies
+(`node %s stopped with error: %w` around the acker node's error) is fatal if `e` is, carries
+`e`'s code, and still matches every sentinel `e` matches — e.g. the fatal
+"DLQ nack threshold exceeded" and the original nack reason inside it. -/
+theorem C20_v1_route_marks_survive (e : Err) :
+    (∀ ls, ls = nackRouteLayers ∨ ls = ackRouteLayers →
+      (isFatalErr e = true → isFatalErr (applyAll ls e) = true) ∧
+      (∀ c, getErr e = some c → getErr (applyAll ls e) = some c) ∧
+      (∀ t, isErr t e = true → isErr t (applyAll ls e) = true)) := by
+  intro ls hls
+  have hk : ∀ l ∈ ls, l.KeepsFirst ∧ l.Keeps := by
+    rcases hls with rfl | rfl
+    · exact C20_route_layers_keep.1
+    · exact C20_route_layers_keep.2
+  exact ⟨C20_fatal_under_layers ls (fun l hl => (hk l hl).2) e,
+    fun c hc => C20_code_kept_under_wrappers ls (fun l hl => (hk l hl).1) e c hc,
+    fun t ht => C20_sentinel_kept_under_wrappers ls (fun l hl => (hk l hl).2) e t ht⟩
+
+/-- C20.v1_threshold_trip_is_fatal — the case the property exists for: a destination nack that
+trips the DLQ threshold stops the acker node with an error the classifier sees as FATAL, with the
+nack reason's own marks still reachable. -/
+theorem C20_v1_threshold_trip_is_fatal (w : Dlq.Win) (thr : Nat) (hthr : 0 < thr) (reason : Err) (m : AckErr.Msg)
+    (hm : m.nack = some reason) (htrip : (w.nack1).2 = false) :
+    ∃ ne, (AckErr.handleAck w thr m).2 = some ne ∧
+      isFatalErr (Layer.app (.errorf fmtNodeStopped [.other] []) ne) = true ∧
+      (∀ t, isErr t reason = true → isErr t (Layer.app (.errorf fmtNodeStopped [.other] []) ne) = true) := by
+  have hl := (C20_v1_node_error_is_layered w thr m).1 reason hm
+  have hn : (AckErr.nackHandler w thr reason m).2 =
+      some (AckErr.wrapW (if isFatalErr (AckErr.wrapW reason) then AckErr.wrapW reason else .fatal (AckErr.wrapW reason))) := by
+    by_cases hf : isFatalErr (AckErr.wrapW reason) = true
+    · simp [AckErr.nackHandler, AckErr.dlqNack, htrip, hthr, fatalError, hf]
+    · simp [AckErr.nackHandler, AckErr.dlqNack, htrip, hthr, fatalError, hf]
+  refine ⟨_, by rw [hl, hn]; rfl, ?_, ?_⟩
+  · have := (C20_v1_route_marks_survive (AckErr.wrapW (if isFatalErr (AckErr.wrapW reason) then AckErr.wrapW reason else .fatal (AckErr.wrapW reason))) nackRouteLayers (Or.inl rfl)).1
+    simp only [nackRouteLayers, applyAll] at this
+    apply this
+    split
+    · next h => simpa [AckErr.wrapW, isFatalErr, first, fatalNode] using h
+    · simp [AckErr.wrapW, isFatalErr, first, fatalNode]
+  · intro t ht
+    have := (C20_v1_route_marks_survive (AckErr.wrapW (if isFatalErr (AckErr.wrapW reason) then AckErr.wrapW reason else .fatal (AckErr.wrapW reason))) nackRouteLayers (Or.inl rfl)).2.2 t
+    simp only [nackRouteLayers, applyAll] at this
+    apply this
+    split <;> simp [AckErr.wrapW, isErr, first, isNode] <;> simpa [isErr] using ht
 
 /-! ## non-vacuity -/
 
